@@ -291,7 +291,10 @@ theorem setData_ok (n n' : Node) (idx sub : Nat) (data : Bytes)
     · cases h
     · split at h
       · cases h
-      · cases h; simp
+      · dsimp only at h
+        split at h
+        · cases h
+        · cases h; simp
 
 /-- one segment-download exchange, fully evaluated: `fin` is what the final `set_data` (last
     segment only) returns -/
